@@ -483,3 +483,37 @@ def span_slices_native(B):
                                 if tuple(x.serial for x in got) != tuple(x.serial for x in want):
                                     B.fail("span[slice] != tuple(span)[slice]", {"class": cls.__name__, "start": a, "end": b, "step": st, "slice": [s0, s1, s2]})
                                     return
+
+
+@contract("C09", targets=[P + "ContextualPeriod.__add__", P + "ContextualPeriod.__sub__", P + "ContextualPeriod.resolve",
+                          P + "ContextualPeriod.__init__", P + "ContextualPeriod.__bool__"],
+          instances=[(c, w) for c in ALL for w in ("start_date", "end_date")])
+def contextual_period_state(K, cls, which):
+    """State contract of an open end: (resolve_from, offset) after any + / - is (same, offset +/- k) whatever the
+    accumulated offset was; resolve returns context.<which> + offset.  (Covers sequences of shifts by induction.)"""
+    off = K.int("offset", -50, 50)
+    k = K.int("k", -50, 50)
+    cp = K.obj(D.ContextualPeriod, _resolve_from=which, _offset=off)
+    plus = K.binop("+", cp, k)
+    K.ensure("(+k).offset == offset+k", K.And(K.cls_of(plus) is D.ContextualPeriod, K.attr(plus, "_offset") == off + k,
+                                               K.attr(plus, "_resolve_from") == which))
+    minus = K.binop("-", cp, k)
+    K.ensure("(-k).offset == offset-k", K.And(K.cls_of(minus) is D.ContextualPeriod, K.attr(minus, "_offset") == off - k,
+                                               K.attr(minus, "_resolve_from") == which))
+    K.ensure("receiver unchanged", K.attr(cp, "_offset") == off)
+    lo, hi = (-60, 60) if cls is not D.DailyPeriod else (730000, 730200)
+    cs = K.obj(cls, serial=K.int("ctx_start", lo, hi))
+    ce = K.obj(cls, serial=K.int("ctx_end", lo, hi))
+    ctx = K.call(D.ResolutionContext, cs, ce)
+    r = K.method(cp, "resolve", ctx)
+    base = K.attr(cs, "serial") if which == "start_date" else K.attr(ce, "serial")
+    K.ensure("resolve == context end + offset", K.And(K.cls_of(r) is cls, K.attr(r, "serial") == base + off))
+    K.ensure("needs_resolve", K.And(K.getattr(cp, "needs_resolve") == True, K.truth(cp) == False))   # noqa: E712
+    # two successive shifts of an open-ended span accumulate
+    k2 = K.int("k2", -50, 50)
+    sp = K.call(D.Span, None, None)
+    K.method(sp, "shift", k)
+    K.method(sp, "shift", k2)
+    rs = K.method(sp, "resolve", ctx)
+    K.ensure("span.shift(k); span.shift(k2); resolve", K.And(K.attr(K.getattr(rs, "start"), "serial") == K.attr(cs, "serial") + k + k2,
+                                                             K.attr(K.getattr(rs, "end"), "serial") == K.attr(ce, "serial") + k + k2))
